@@ -60,7 +60,7 @@ theorem line5_hedge (hv : Valid I) (hx : XSub I) (ht : TopoGood topo) {e : Err} 
     I.G.Hedge I.X I.Y (fun v => v ∈ I.G.nodes) (fun v => v ∈ I.G.nodes ∧ v ∉ I.X) := by
   obtain ⟨_, hXne, hlen, hlenx, anc, anc', hpre⟩ := step_error' hv ht h
   have hwf := hv.wf
-  have hwfx := IdAux.wf_removeNodes I.G I.X
+  have hwfx := MG.wf_removeNodes I.G I.X
   have hwfi : (I.G.removeInEdges I.X).WF := wf_fromEdges _ _ _
   obtain ⟨D, hD⟩ : ∃ D, I.G.districts = [D] := by
     match hd : I.G.districts, hlen with
